@@ -142,6 +142,9 @@ def routers(ctx, P):
             var = unparse(scs[0].loop.target)
             cand = [unparse(t) for x in scs[0].arm.body if isinstance(x, ast.Assign) and unparse(x.value) == "[%s]" % var for t in x.targets]
             lst = cand[0] if cand else None
+        elif not scs:
+            mfs = [m_ for m_ in scans.find_minfilters(fn) if m_.how == "min-call"]
+            lst = mfs[0].cands if len(mfs) == 1 else None
         rets = sorted(set(p[2].replace(" ", "") for p in paths if p[2]))
         ob.ok("JoinShortestQueue", "JoinShortestQueue.next_node returns %s" % rets)
         if lst is None or rets != sorted(["ciw.random_choice(%s)" % lst, "%s[0]" % lst]):
@@ -173,7 +176,7 @@ def routers(ctx, P):
                         ("LoadBalancing", "self.simulation.nodes[node_index].number_of_individuals")):
         fn = P.classes[cname].methods.get("get_queue_size")
         rets = [x for x in ast.walk(fn) if isinstance(x, ast.Return)] if fn else []
-        got = unparse(rets[0].value).replace(" ", "") if len(rets) == 1 else "?"
+        got = unparse(rules.inline_locals(fn, rets[0].value)).replace(" ", "") if len(rets) == 1 else "?"
         ob.ok("%s.get_queue_size" % cname, got)
         if got != want:
             ctx.violation(ob, "R12.router-return", "%s.get_queue_size" % cname, got, "queue-size", "%s must measure %s" % (cname, want), loc(fn) if fn else "")
@@ -197,6 +200,18 @@ def jsq(ctx, P):
     ci = P.classes["JoinShortestQueue"]
     fn = ci.methods["next_node"]
     scs = scans.find_scans(fn)
+    if not scs:
+        # two-pass form: sizes over all destinations, their minimum, the destinations attaining it
+        mfs = [m_ for m_ in scans.find_minfilters(fn) if m_.how == "min-call"]
+        if len(mfs) == 1:
+            mf = mfs[0]
+            ob.ok("scan", "%s = min(%s for %s in %s); %s = those attaining it" % (mf.best, mf.key, mf.var, mf.coll, mf.cands))
+            if mf.coll != "self.destinations":
+                ctx.violation(ob, "R6.argmin", "JoinShortestQueue.next_node", "min over %s" % mf.coll, "scan-collection", "all listed destinations must be compared", loc(mf.node))
+            if mf.key != "self.get_queue_size(%s)" % mf.var:
+                ctx.violation(ob, "R6.argmin", "JoinShortestQueue.next_node", mf.key, "scan-key", "the key must be get_queue_size of the destination being scanned", loc(mf.node))
+            _jsq_tail(ctx, P, ob)
+            return
     if len(scs) != 1:
         ctx.unrecognised("JSQ: arg-min scan not recognised in JoinShortestQueue.next_node")
         return
@@ -217,6 +232,10 @@ def jsq(ctx, P):
         app = [x for x in ast.walk(t) if isinstance(x, ast.Call) and call_name(x) == "append"]
         if len(app) != 1 or unparse(app[0].args[0]) != var or not lists or unparse(app[0].func.value) != lists[0]:
             ctx.violation(ob, "R6.argmin", "JoinShortestQueue.next_node", "tie arm", "selection-not-from-iteration", "a tie must append that destination", loc(t))
+    _jsq_tail(ctx, P, ob)
+
+
+def _jsq_tail(ctx, P, ob):
     flexible_update(ctx, P, ob)
     # FlexibleProcessBased builds its temporary routers over the given subset
     fview = P.view("FlexibleProcessBased")
@@ -259,7 +278,7 @@ class _InService:
         return "self"
 
 
-def in_service(ctx, P, iters):
+def in_service(ctx, P, iters, only=None):
     ob = ctx.ob("R2.ins", "number_in_service changes by exactly (#service starts - #service stops) on every path of every method, per node object (JSQ reads true queue lengths)")
     reported = set()
     for view in family_views(P, "Node"):
@@ -324,7 +343,7 @@ def in_service(ctx, P, iters):
         for m, (cls, fn, bad, touched) in sorted(results.items()):
             if touched:
                 ob.seen("%s.%s" % (cls.name, m))
-            if m in unbalanced:
+            if m in unbalanced or (only is not None and m not in only):
                 continue
             for obj, dc, ds, st in bad:
                 construct = "%s.number_in_service %+d vs starts-stops %+d" % ("self" if obj == "self" else "other-node", dc, ds)
@@ -372,7 +391,7 @@ def class_change(ctx, P, iters):
         # class-change draw
         cls, fn = view.method("change_customer_class")
         tok = fn.args.args[1].arg
-        s = unparse(fn).replace(" ", "").replace("\n", "")
+        s = unparse(rules.inline_locals(fn, fn)).replace(" ", "").replace("\n", "")
         want = "random_choice(self.simulation.network.customer_class_names,[self.class_change[%s.previous_class][clss_name]forclss_nameinself.simulation.network.customer_class_names])" % tok
         ob.ok("%s.change_customer_class:draw" % view.name)
         if want not in s or ("%s.previous_class=%s.customer_class" % (tok, tok)) not in s:
